@@ -350,16 +350,22 @@ pub fn gen_graph(rng: &mut Rng, n: usize, decl_mode: DeclMode) -> GraphSpec {
     // declarations
     let ntypes = match decl_mode {
         DeclMode::ConflictHeavy | DeclMode::SameRank => rng.range(1, 2),
-        _ => rng.range(1, N_TYPES),
+        _ => match rng.below(4) {
+            0 => rng.range(1, 3),
+            1 | 2 => rng.range(1, 6),
+            // beyond the inline capacity (8) of the TypeIds small-vector
+            _ => rng.range(7, N_TYPES),
+        },
     };
+    let greedy = ntypes > 8 && rng.chance(1, 2);
     let mut fns = Vec::with_capacity(n);
     for _ in 0..n {
-        let (mut r, mut w) = (0u8, 0u8);
+        let (mut r, mut w) = (0u16, 0u16);
         match decl_mode {
             DeclMode::None => {}
             DeclMode::ReadOnly => {
                 for k in 0..ntypes {
-                    if rng.chance(1, 2) {
+                    if greedy || rng.chance(1, 2) {
                         r |= 1 << k;
                     }
                 }
@@ -379,7 +385,7 @@ pub fn gen_graph(rng: &mut Rng, n: usize, decl_mode: DeclMode) -> GraphSpec {
             }
             DeclMode::Random => {
                 for k in 0..ntypes {
-                    match rng.below(8) {
+                    match if greedy { rng.range(3, 7) } else { rng.below(8) } {
                         0..=3 => {}
                         4 | 5 => r |= 1 << k,
                         6 => w |= 1 << k,
@@ -468,8 +474,10 @@ pub fn gen_run(rng: &mut Rng, n: usize, k: &RunKnobs) -> RunSpec {
                 10..=14 => Some(0),
                 15..=39 => Some(1),
                 40..=64 => Some(2),
-                65..=79 => Some(3),
-                80..=89 => Some(n.max(1)),
+                65..=76 => Some(3),
+                77..=80 => Some(rng.range(4, 16)),
+                81..=82 => Some([63, 64, 65, 128][rng.below(4)]),
+                83..=90 => Some(n.max(1)),
                 _ => Some(n + 1),
             }
         } else {
@@ -477,9 +485,11 @@ pub fn gen_run(rng: &mut Rng, n: usize, k: &RunKnobs) -> RunSpec {
                 0..=44 => None,
                 45..=49 => Some(0),
                 50..=64 => Some(1),
-                65..=76 => Some(2),
-                77..=84 => Some(3),
-                85..=92 => Some(n.max(1)),
+                65..=74 => Some(2),
+                75..=80 => Some(3),
+                81..=84 => Some(rng.range(4, 16)),
+                85..=86 => Some([63, 64, 65, 128][rng.below(4)]),
+                87..=93 => Some(n.max(1)),
                 _ => Some(n + 1),
             }
         }
@@ -497,8 +507,10 @@ pub fn gen_run(rng: &mut Rng, n: usize, k: &RunKnobs) -> RunSpec {
                 0..=44 => Strategy::FinishCurrent,
                 45..=54 => Strategy::PollNextN(0),
                 55..=74 => Strategy::PollNextN(1),
-                75..=89 => Strategy::PollNextN(2),
-                _ => Strategy::PollNextN(3),
+                75..=86 => Strategy::PollNextN(2),
+                87..=94 => Strategy::PollNextN(3),
+                95..=97 => Strategy::PollNextN(rng.range(4, 6) as u64),
+                _ => Strategy::PollNextN(1000),
             }
         } else {
             match x {
@@ -507,8 +519,10 @@ pub fn gen_run(rng: &mut Rng, n: usize, k: &RunKnobs) -> RunSpec {
                 40..=69 => Strategy::FinishCurrent,
                 70..=74 => Strategy::PollNextN(0),
                 75..=86 => Strategy::PollNextN(1),
-                87..=94 => Strategy::PollNextN(2),
-                _ => Strategy::PollNextN(3),
+                87..=93 => Strategy::PollNextN(2),
+                94..=97 => Strategy::PollNextN(3),
+                98 => Strategy::PollNextN(rng.range(4, 6) as u64),
+                _ => Strategy::PollNextN(1000),
             }
         };
         include = rng.chance(1, 2);
@@ -775,7 +789,7 @@ pub fn gen_case(prop: Prop, rng: &mut Rng) -> GenCase {
         }
         Prop::C20 => {
             mode = Mode::Concurrent;
-            nruns = rng.range(2, 3);
+            nruns = if rng.chance(1, 12) { 4 } else { rng.range(2, 3) };
             allow_wide = false;
             knobs.apis = apis_for(&all_fams, true);
         }
